@@ -524,6 +524,7 @@ func checkC16(c *hx.Ctx) {
 	c.Floor("real_handler_runs", 10)
 	c.Floor("document_handler_front_runs", 10)
 	c.Floor("document_handler_front_runs_via_rest", 5)
+	c.Floor("document_handler_front_runs_with_store_faults", 5)
 	c.Floor("real_handler_runs_with_not_yet_valid_operation", 5)
 	c.Floor("real_handler_batches_read_back", 50)
 }
@@ -1135,7 +1136,21 @@ func handlerFrontSlice(c *hx.Ctx) {
 			c.Inconclusive("batch.New: %v", err)
 			return
 		}
-		dh := dochandler.New(hx.Namespace, nil, pc, w, processor.New("verif", hx.NewOpStore(), pc), hx.NopMetrics{})
+		// an unpublished-operation store whose Put fails now and then: an operation refused for that reason was never accepted,
+		// so it must not be anchored (and a retry of it is an ordinary new submission)
+		unpub := &recUnpub{}
+		failPuts := run%3 == 0
+		if failPuts {
+			failAt := map[int]bool{1 + r.Intn(4): true, 3 + r.Intn(6): true}
+			unpub.PutErr = func(call int) error {
+				if failAt[call] {
+					return errInjected
+				}
+				return nil
+			}
+			c.Count("document_handler_front_runs_with_store_faults")
+		}
+		dh := dochandler.New(hx.Namespace, nil, pc, w, processor.New("verif", hx.NewOpStore(), pc), hx.NopMetrics{}, dochandler.WithUnpublishedOperationStore(unpub, allOpTypes))
 		viaREST := run%2 == 1
 		rest := restdoc.NewUpdateHandler(dh, pc, hx.NopMetrics{})
 		if viaREST {
@@ -1176,6 +1191,10 @@ func handlerFrontSlice(c *hx.Ctx) {
 				_, e = dh.ProcessOperation(cr.Req, vt)
 			}
 			ops[id] = opInfo{ver, suffixOf(cr.Req, ref.SHA256), false}
+			if e != nil && failPuts {
+				descr = append(descr, fmt.Sprintf("create@vt%d(refused: store fault)", vt))
+				continue // refused: never accepted
+			}
 			if e != nil {
 				c.Violation(fmt.Sprintf("C16 (document handler in front) a valid create named by version time %d was refused: %v", vt, e), map[string]interface{}{"request": id})
 				return
